@@ -256,6 +256,32 @@ def gen_mts(r, k, T):
             "sleep_factor": f, "mts_extended": ext, "it0": r.choice([0, 0, 3, 4]), "pos": walk(r, T, 1, lo=-1.5, hi=1.5, bits=5, stay=0.1, start=start)}
 
 
+def gen_ti(r, k, T):
+    """thermodynamic-integration samples of a restraint or of metadynamics (colvarbias_ti): total forces on a grid, in the state"""
+    same = r.random() < 0.5
+    w = r.choice([0.5, 1.0])
+    nx = r.randint(3, 6)
+    lo = V.dyadic(r, -3, 0, bits=2)
+    sub = r.random() < 0.3
+    cfg = cv_block(0, width=w, lower=lo, upper=lo + nx * w, extra=["subtractAppliedForce on"] if sub else [],
+                   cvc_extra=["oneSiteTotalForce on"])
+    kind = r.choice(["harmonic", "moving", "meta"])
+    tags = ["ti", "samestep" if same else "lagged", "bias=" + kind] + (["subtract"] if sub else [])
+    ti = ["  writeTISamples on", "  writeTIPMF on"]
+    if kind == "meta":
+        cfg += ["metadynamics {", "  name b", "  colvars v0", "  hillWeight 0.5", "  newHillFrequency %d" % r.choice([1, 2, 3]),
+                "  hillWidth 2.0"] + ti + ["}"]
+    else:
+        cfg += ["harmonic {", "  name b", "  colvars v0", "  forceConstant %r" % r.choice([0.5, 1.0, 2.0]),
+                "  centers %r" % V.dyadic(r, -2, 2, bits=2)]
+        if kind == "moving":
+            cfg += ["  targetCenters %r" % V.dyadic(r, -2, 2, bits=2), "  targetNumSteps %d" % r.choice([4, 8, 20])]
+        cfg += ti + ["}"]
+    return {"fam": "ti", "tags": tags, "sigtags": [], "natoms": 1, "setup": ["samestep %d" % (1 if same else 0), "includecv 1", "temperature 300.0"],
+            "config": cfg, "it0": r.choice([0, 0, 4]), "show_tf": True, "tf_lagged": not same,
+            "pos": walk(r, T, 1, lo=lo - 0.5, hi=lo + nx * w + 0.5, bits=3), "ef": forces(r, T, 1)}
+
+
 # ------------------------------------------------------------------------------------------------ ABMD
 def gen_abmd(r, k, T):
     w = 1.0
@@ -476,8 +502,25 @@ def gen_opes(r, k, T):
     if r.random() < 0.3:
         B.append("  calcWork on")
         tags.append("calcWork")
+    # paths of update_opes: adaptive kernel widths, neighbour list, no normalisation, fixed widths, PMF grid
+    o = r.random()
+    if o < 0.2:
+        B += ["  adaptiveSigma on", "  adaptiveSigmaStride %d" % (pace * r.choice([1, 2])), "  gaussianSigmaMin " + vec([0.125] * nv)]
+        tags.append("adaptiveSigma")
+    elif o < 0.4:
+        B += ["  neighborList on"] + (["  neighborListNewHillReset on"] if r.random() < 0.5 else [])
+        tags.append("neighborList")
+    elif o < 0.5:
+        B += ["  noZed on"]
+        tags.append("noZed")
+    elif o < 0.6:
+        B += ["  fixedGaussianSigma on", "  recursiveMerge off"]
+        tags.append("fixedSigma")
+    if r.random() < 0.3:
+        B += ["  pmf on", "  pmfColvars v0", "  pmfHistoryFrequency %d" % r.choice([0, 4])]
+        tags.append("pmf")
     B.append("}")
-    return {"fam": "opes", "tags": tags, "sigtags": [], "collapse": None, "natoms": nv, "setup": ["temperature 300.0", "restartfreq %d" % rf],
+    return {"fam": "opes", "tags": tags, "sigtags": [t for t in ("adaptiveSigma", "pmf") if t in tags], "collapse": None, "natoms": nv, "setup": ["temperature 300.0", "restartfreq %d" % rf],
             "config": cfg + B, "it0": 0, "pos": walk(r, T, nv, lo=-3.0, hi=3.0, bits=3), "restartfreq": rf,
             "needs_prefix": True}
 
@@ -566,4 +609,4 @@ def gen_multi(r, k, T):
             "config": cfg + B, "it0": r.choice([0, 4]), "pos": walk(r, T, 2, lo=-2.5, hi=2.5, bits=3), "shuffle": True}
 
 
-FAMILIES = {"pabf": gen_pabf, "mts": gen_mts, "multi": gen_multi, "runave": gen_runave, "histrestraint": gen_histrestraint, "eabf": gen_eabf, "opes": gen_opes, "restraint": gen_restraint, "histogram": gen_histogram, "extlag": gen_extlag, "abmd": gen_abmd, "alb": gen_alb, "abf": gen_abf, "meta": gen_meta}
+FAMILIES = {"ti": gen_ti, "pabf": gen_pabf, "mts": gen_mts, "multi": gen_multi, "runave": gen_runave, "histrestraint": gen_histrestraint, "eabf": gen_eabf, "opes": gen_opes, "restraint": gen_restraint, "histogram": gen_histogram, "extlag": gen_extlag, "abmd": gen_abmd, "alb": gen_alb, "abf": gen_abf, "meta": gen_meta}
